@@ -42,7 +42,15 @@ META = {
              "replayed for 4 (thorough 8) model kinds x every domain geometry where a second par2fun would change the value; a Samples object of PARAMETERS that carries no geometry "
              "(default), an identity-like one or a mapped one with another map is converted with the MODEL's par2fun (IdentSamplesPar, deviation "
              "SamplesConvertedWithOwnGeometry must violate); other inputs whose geometry is NOT equal (other grid / size) are recorded only.  The raw values come as int / float32 / strided / read-only / column-major arrays "
-             "(layout is a field of the case; also for plain ndarray inputs)."),
+             "(layout is a field of the case; also for plain ndarray inputs).  "
+             "CLASS OF THE VALUES IN FLIGHT (part FG, ModelGeomForeign.tla, EXTENDS ModelGeom): abstract values [v, cls, flag, geo] travel through TwoFun . operator . "
+             "TwoPar; a CUQIarray of PARAMETERS carrying ANOTHER geometry (none given = default, Discrete, Continuous1D on another grid, MappedGeometry with another "
+             "map) x operators that hand back the class and attributes of their argument (x itself, a view, a ufunc, A @ x; polynomial A @ x + B @ (x * x)) or a fresh "
+             "plain array (scipy sparse, np.asarray) x 10 geometries in front of and behind the operator (identity-like, Image2D C / F, Continuous2D, StepExpansion "
+             "mean / max, MappedGeometry, expansion) x forward / adjoint / gradient(direction): invariant FgOneOutput (the answer is the value for the plain parameter "
+             "vector, for every choice of the free booleans 'par2fun keeps the class' / 'the library calls the geometries equal'); deviations OutputFlagTrusted and "
+             "DefaultEqualsEveryGridGeometry (tree as built, C12-F2) must violate.  Replay: real LinearModel / Model with operators realised literally, value, wrapper "
+             "(CUQIarray of parameters of the geometry behind the operator), input untouched; a refused construction is a violation, not a machinery failure."),
     "note": ("Bounded sizes (domain function dimension 6, range 4); one argument models only (the pinned version supports one input). "
              "KLExpansion realised numerically from the original geometry object. Exact class of the output for plain ndarray input and "
              "exception types are observations, not asserted."),
@@ -394,6 +402,13 @@ def check_rename(ctx, case, key, model, exp, dom, rng, tag):
 
 
 def check_case(ctx, case):
+    # a constructor of the library refusing a configuration the specification calls well-formed is a VIOLATION
+    # construct/<key>/construction_refused (exit 1), never a machinery failure (modelgeom_real.construct)
+    from cuqiverif.modelgeom_real import refusal_is_violation
+    return refusal_is_violation("construct")(_check_case_body)(ctx, case)
+
+
+def _check_case_body(ctx, case):
     from cuqiverif.modelgeom_real import build_geometry, rmat
     Gd, Gpd, Hr, Hpr = (rmat(case[k]) if len(case[k]) else None for k in ("Gd", "Gpd", "Hr", "Hpr"))
     variants = [(None, None)]
@@ -408,21 +423,29 @@ def check_case(ctx, case):
 
 
 def run(ctx):
-    from cuqiverif import c12_inplace, c12_ident
+    from cuqiverif import c12_inplace, c12_ident, c12_foreign
     inplace = c12_inplace.start(ctx)              # TLC runs of the in-place facet: in the background, collected at the end
     ident = c12_ident.start(ctx)                  # TLC runs of the geometry-identity facet (ModelGeomIdent.tla), in the background
+    foreign = c12_foreign.start(ctx)              # TLC runs of the class-in-flight facet (ModelGeomForeign.tla), in the background
     try:
         cases = _run(ctx)
     except BaseException:
         c12_inplace.abandon(inplace)
         c12_ident.abandon(ident)
+        c12_foreign.abandon(foreign)
         raise
     try:
         ctx.traces += c12_inplace.finish(ctx, inplace)
     except BaseException:
         c12_ident.abandon(ident)
+        c12_foreign.abandon(foreign)
         raise
-    ctx.traces += c12_ident.finish(ctx, ident, cases)
+    try:
+        ctx.traces += c12_ident.finish(ctx, ident, cases)
+    except BaseException:
+        c12_foreign.abandon(foreign)
+        raise
+    ctx.traces += c12_foreign.finish(ctx, foreign)
 
 
 def _run(ctx):
@@ -476,6 +499,9 @@ def replay(ctx, case):
     if case.get("kind") == "ident":
         from cuqiverif import c12_ident
         return c12_ident.replay(ctx, case)
+    if case.get("kind") == "fg":
+        from cuqiverif import c12_foreign
+        return c12_foreign.replay(ctx, case)
     if case.get("kind") == "x12":
         from cuqiverif import c12_inplace
         return c12_inplace.check_x12_case(ctx, case)
